@@ -835,6 +835,21 @@ func (s *ShapeIndex) applyUpdatesInternal() {
 	// edge as the final index memory size. If this causes issues, add in
 	// batched updating to limit the amount of items per batch to a
 	// configurable memory footprint overhead.
+	if !s.isFirstUpdate() {
+		if s.pendingAdditionsPos >= s.nextID && len(s.pendingRemovals) == 0 {
+			// Another goroutine has already applied the pending updates.
+			return
+		}
+		// TODO: Merging new edges into the existing index cells is not
+		// implemented yet (the incremental paths below re-enter Iterator,
+		// which would take the update lock again). Until it is, an update
+		// after the first one rebuilds the index from all the live shapes.
+		s.cellMap = make(map[CellID]*ShapeIndexCell)
+		s.cells = nil
+		s.pendingAdditionsPos = 0
+		s.pendingRemovals = nil
+	}
+
 	t := newTracker()
 
 	// allEdges maps a Face to a collection of faceEdges.
@@ -844,7 +859,7 @@ func (s *ShapeIndex) applyUpdatesInternal() {
 		s.removeShapeInternal(p, allEdges, t)
 	}
 
-	for id := s.pendingAdditionsPos; id < int32(len(s.shapes)); id++ {
+	for id := s.pendingAdditionsPos; id < s.nextID; id++ {
 		s.addShapeInternal(id, allEdges, t)
 	}
 
@@ -853,7 +868,7 @@ func (s *ShapeIndex) applyUpdatesInternal() {
 	}
 
 	s.pendingRemovals = s.pendingRemovals[:0]
-	s.pendingAdditionsPos = int32(len(s.shapes))
+	s.pendingAdditionsPos = s.nextID
 	// It is the caller's responsibility to update the index status.
 }
 
